@@ -89,7 +89,7 @@ Definition run_q (arch os code flags nparams info0 info1 excaddr : Z) (ctx : opt
     if gcpu_eqb c GX86_64 then
       match dec with
       | Some (lea, ms, imp, ipk, ipv, ops) =>
-          analyze_dinstr {| di_lea := lea; di_memsize := ms; di_ops := map mk_operand ops;
+          analyze_dinstr_src {| di_lea := lea; di_memsize := ms; di_ops := map mk_operand ops;
                             di_implicit := mk_implicit imp; di_ip := mk_ip ipk ipv |} x
       | None => None
       end
